@@ -9,6 +9,7 @@ import (
 	"fmt"
 	"io"
 	"math/big"
+	"os"
 	"os/exec"
 	"strings"
 	"sync"
@@ -31,6 +32,9 @@ type SolverStats struct {
 
 var GlobalSolverStats SolverStats
 
+// QueryLog prints one line per solver query (diagnostics).
+var QueryLog = os.Getenv("GOSYM_QLOG") != ""
+
 type scope struct {
 	defined  []int    // term ids defined in this scope
 	declared []string // var names declared in this scope
@@ -47,13 +51,19 @@ type Solver struct {
 	scopes    []scope
 	log       []string // commands in live scopes (for portfolio replays)
 	dead      bool
+	kind      string
 	CrossEvery int // re-ask every n-th decided query to a second solver (0 = never)
 	nq        int
 	LastErr   string
 }
 
-func NewSolver(timeoutMs int) (*Solver, error) {
-	s := &Solver{timeoutMs: timeoutMs}
+// NewSolver starts a solver process; kind is "z3" (default) or "cvc5int"
+// (cvc5 --incremental --solve-bv-as-int=sum, for *2/3-style arithmetic).
+func NewSolver(kind string, timeoutMs int) (*Solver, error) {
+	if kind == "" {
+		kind = "z3"
+	}
+	s := &Solver{timeoutMs: timeoutMs, kind: kind}
 	if err := s.start(); err != nil {
 		return nil, err
 	}
@@ -61,7 +71,11 @@ func NewSolver(timeoutMs int) (*Solver, error) {
 }
 
 func (s *Solver) start() error {
-	s.cmd = exec.Command("z3", "-in", "-smt2")
+	if s.kind == "cvc5int" {
+		s.cmd = exec.Command("cvc5", "--incremental", "--solve-bv-as-int=sum", "--lang=smt2", fmt.Sprintf("--tlimit-per=%d", s.timeoutMs))
+	} else {
+		s.cmd = exec.Command("z3", "-in", "-smt2")
+	}
 	var err error
 	s.in, err = s.cmd.StdinPipe()
 	if err != nil {
@@ -86,7 +100,12 @@ func (s *Solver) resetState() {
 	s.declared = make(map[string]bool)
 	s.scopes = []scope{{}}
 	s.log = s.log[:0]
-	s.rawNoLog(fmt.Sprintf("(set-option :timeout %d)", s.timeoutMs))
+	if s.kind == "cvc5int" {
+		s.rawNoLog("(set-logic ALL)")
+		s.rawNoLog("(set-option :produce-models true)")
+	} else {
+		s.rawNoLog(fmt.Sprintf("(set-option :timeout %d)", s.timeoutMs))
+	}
 }
 
 func (s *Solver) Close() {
@@ -238,6 +257,9 @@ func (s *Solver) Check() string {
 		s.LastErr = l
 	}
 	atomic.AddInt64(&GlobalSolverStats.NanosZ3, int64(time.Since(t0)))
+	if QueryLog {
+		fmt.Fprintf(os.Stderr, "query: %s %.3fs (script %d lines)\n", res, time.Since(t0).Seconds(), len(s.log))
+	}
 	if res == "error" {
 		panic(engineFault{"solver error: " + s.LastErr})
 	}
@@ -312,6 +334,9 @@ func (s *Solver) fallback() string {
 		{"cvc5", []string{"--lang=smt2", "--solve-bv-as-int=sum", fmt.Sprintf("--tlimit=%d", s.timeoutMs)}, "(set-logic ALL)\n"},
 		{"z3-new", []string{"-in", "-smt2", fmt.Sprintf("-T:%d", secs)}, ""},
 		{"cvc5", []string{"--lang=smt2", fmt.Sprintf("--tlimit=%d", s.timeoutMs)}, "(set-logic ALL)\n"},
+	}
+	if s.kind == "cvc5int" {
+		cands[0] = cand{"z3", []string{"-in", "-smt2", fmt.Sprintf("-T:%d", secs)}, ""}
 	}
 	results := make(chan string, len(cands))
 	var wg sync.WaitGroup
